@@ -574,6 +574,19 @@ static int run_session(const VCase *c, const char *out, const char *suffix, int 
     }
 
 teardown:
+    if (s.api_error == 1) {
+        /* the library itself reported an encode error (EB_ErrorMax): put the result on record before teardown, which is
+         * known to dead-lock when pictures are still in the pipeline */
+        FILE *fr = open_out(&s, "res", suffix);
+        if (fr) {
+            fprintf(fr,
+                    "{\"sent\":%d,\"packets\":%d,\"recon\":%d,\"eos_packet\":%d,\"eos_recon\":%d,\"packets_after_eos\":%d,"
+                    "\"api_error\":%d,\"errmsg\":\"%s\",\"sched_points\":0,\"trace_records\":0}\n",
+                    s.n_sent, s.n_pkts, s.n_recon, s.eos_pkt_seen, s.eos_recon_seen, s.pkts_after_eos, s.api_error, s.errmsg);
+            fclose(fr);
+        }
+        if (s.fpkts) fflush(s.fpkts);
+    }
     BLOG("C deinit");
     rc = svt_av1_enc_deinit(s.h);
     BLOG("R deinit rc=0x%x", (unsigned)rc);
